@@ -117,6 +117,53 @@ func c08DirectCalls() []*c08call {
 	}
 	bcall.want = bcall.direct()
 	out = append(out, bcall)
+	// every caller edits the result it got: the next caller (any goroutine) still gets the pristine default
+	type ditemsDst = []dItem
+	dsch := z.Slice(z.Struct(z.Schema{"Meta": dCustomMeta(), "Nums": dCustomNums(), "N": z.Int()})).Default([]dItem{{Meta: dMeta{"env": "prod"}, Nums: []int{1, 2}, N: 1}})
+	psch := z.Slice(z.Preprocess(func(d any, c z.Ctx) (any, error) { return d, nil }, z.Slice(dCustomNums()))).Default([][][]int{{{7, 8}}})
+	for _, which := range []string{"Slice(Struct{custom map, custom []int}).Default", "Slice(Preprocess(fn, Slice(custom []int))).Default"} {
+		which := which
+		dc := &c08call{mode: ref.Parse, desc: "Parse(nil) of " + which + "; the caller then edits its own result in place"}
+		dc.direct = func(opts ...z.ExecOption) string {
+			if strings.HasPrefix(which, "Slice(Struct") {
+				var d ditemsDst
+				m := dsch.Parse(nil, &d)
+				out := fmt.Sprintf("%v %v", d, z.Issues.SanitizeMap(m))
+				if len(d) == 1 && d[0].Meta != nil && len(d[0].Nums) > 0 {
+					d[0].Meta["env"], d[0].Nums[0] = "edited", 99
+				}
+				return out
+			}
+			var d [][][]int
+			m := psch.Parse(nil, &d)
+			out := fmt.Sprintf("%v %v", d, z.Issues.SanitizeMap(m))
+			if len(d) == 1 && len(d[0]) == 1 && len(d[0][0]) == 2 {
+				d[0][0][1] = 99
+			}
+			return out
+		}
+		dc.want = dc.direct()
+		out = append(out, dc)
+	}
+	// one issue object of the application, complete in every field, returned by transforms under nodes of two different types
+	own := &z.ZogIssue{Code: "app_code", Path: "app.path", Dtype: "app_type", Message: "the application's issue"}
+	ssch := z.Struct(z.Schema{"s": z.String().PostTransform(func(any, z.Ctx) error { return own }), "n": z.Int()})
+	nsch := z.Struct(z.Schema{"s": z.String(), "n": z.Int().PostTransform(func(any, z.Ctx) error { return own })})
+	for i, sc := range []*z.StructSchema{ssch, nsch} {
+		sc := sc
+		oc := &c08call{mode: ref.Parse, desc: fmt.Sprintf("Parse whose transform (under a %s node) returns the application's own, complete issue object", []string{"string", "number"}[i])}
+		oc.direct = func(opts ...z.ExecOption) string {
+			var d struct {
+				S string
+				N int
+			}
+			m := sc.Parse(map[string]any{"s": "x", "n": 1}, &d)
+			all, _ := obs.CanonMap(m)
+			return obs.Multiset(all, func(ci obs.CI) string { return ci.Full() })
+		}
+		oc.want = oc.direct()
+		out = append(out, oc)
+	}
 	// messages in the language named by each call (i18n is installed for the whole round, see RunCase)
 	for _, lang := range []string{"es", "en", ""} {
 		lang := lang
@@ -390,6 +437,46 @@ func (c08) RunCase(c *core.Ctx) {
 			maxOverlap = b
 		}
 		c.Count(fmt.Sprintf("callbacks_sampled_with_%d_calls_in_flight_on_the_schema", b), int(overlapHist[b]))
+	}
+	// brand-new schema objects whose very first executions overlap (anything a schema builds lazily on first use is built then)
+	{
+		enum := make([]string, 3000)
+		for i := range enum {
+			enum[i] = fmt.Sprintf("v%05d", (i*7919)%3000)
+		}
+		var badFirst atomic.Value
+		for round := 0; round < tierN(c.Tier, 12, 60); round++ {
+			fresh := z.String().OneOf(enum).Min(2)
+			numList := []int{5, 3, 9, 1, 7, 2, 8, 4, 6, 0, 15, 13, 19, 11, 17, 12, 18, 14, 16, 10, 25, 23, 29}
+			nums := z.Int().OneOf(numList)
+			start := make(chan struct{})
+			var fw sync.WaitGroup
+			for g := 0; g < 8; g++ {
+				fw.Add(1)
+				go func(g int) {
+					defer fw.Done()
+					<-start
+					var s string
+					var n int
+					member := enum[(g*431+round)%len(enum)]
+					if l := fresh.Parse(member, &s); len(l) != 0 {
+						badFirst.CompareAndSwap(nil, fmt.Sprintf("OneOf(3000 values) rejected its member %q on a first, overlapping use: %v", member, z.Issues.SanitizeList(l)))
+					}
+					if l := fresh.Parse("not-a-member", &s); len(l) != 1 {
+						badFirst.CompareAndSwap(nil, fmt.Sprintf("OneOf(3000 values) on a non-member: %d issues", len(l)))
+					}
+					if l := nums.Parse(numList[(g*5+round)%len(numList)], &n); len(l) != 0 {
+						badFirst.CompareAndSwap(nil, fmt.Sprintf("Int.OneOf rejected its member %d on a first, overlapping use", numList[(g*5+round)%len(numList)]))
+					}
+				}(g)
+			}
+			close(start)
+			fw.Wait()
+		}
+		c.Eval(tierN(c.Tier, 12, 60) * 8 * 3)
+		if b := badFirst.Load(); b != nil {
+			c.Violation("concurrent-result-differs-from-solo|first-use-of-a-new-schema", map[string]any{"first": b})
+		}
 	}
 	// a short burst of nothing but calls that name different languages: each message must be in the caller's language
 	{
